@@ -16,6 +16,10 @@ func init() {
 func c19(r *Report, s *Sem) {
 	p := r.P
 	a := s.anchors()
+	R11 := r.Rule("R11", "nothing but a send waits for the send mutex: every function that locks it calls Transport.Send under it (a Close that takes it waits, with no context, behind a send blocked on a peer that stopped reading — and the rebuild that closes the dead channel wedges the client)", 1)
+	defer checkSendMutexOnlyForSending(r, s, R11)
+	R12 := r.Rule("R12", "no re-entrant read lock: no function calls, while holding a mutex, a function that locks the same mutex on the same receiver (a writer arriving between the two read-lock acquisitions deadlocks the client for good)", 1)
+	defer checkNoRecursiveReadLock(r, s, R12)
 	R9 := r.Rule("R9", "the listener cannot spin: the function the background listener calls in its retry-at-once loop returns an error only when its context ended — every non-nil error it returns derives from ctx.Err() (a refusal reported at once, with the context live, makes the loop dial back-to-back without the back-off)", 2)
 	defer checkBuilderFailsOnlyWithContext(r, s, R9)
 	R10 := r.Rule("R10", "the listener is not left deaf: a transport whose Close signals with a single token on a buffered channel has only its Receive as consumer of that token (a Send that also waits on it can take it and leave the receiver goroutine parked on a closed transport, so the client never rebuilds)", 1)
